@@ -3,7 +3,7 @@
     source with arbitrary short reads.  Only statements live here. *)
 From Coq Require Import List ZArith Bool.
 From V Require Import Gen.Params Lib.Hex Wire.Varint H3Stream.Model H3Stream.Proofs H3Stream.ProofsStream
-  H3Stream.ProofsExact H3Stream.ProofsSettings.
+  H3Stream.ProofsExact H3Stream.ProofsBody H3Stream.ProofsSettings.
 Import ListNotations.
 Open Scope Z_scope.
 
@@ -73,10 +73,10 @@ Print Assumptions C18_unknown_ignored_reserved_rejected.
     never more than declared; the only error is errTooMuchData, it comes after exactly the
     declared bytes with both directions reset (H3_MESSAGE_ERROR); and it does come. *)
 Theorem C18_content_length_over :
-  forall (fs : list wframe) (sched : list Z) (fw : bool) (maxHdr cl : Z) (bufs : list Z),
+  forall (fs : list wframe) (sched : list Z) (fw : bool) (maxHdr cl : Z) (nc : bool) (bufs : list Z),
   Forall wf_frame fs -> 0 <= cl < zlen (payload fs) ->
   exists out e b' tl,
-    body_reads (new_body (new_stream (mkSrc (wire fs) sched EEOF fw) maxHdr) cl) bufs = (out, e, b') /\
+    body_reads (new_body (new_stream (mkSrc (wire fs) sched EEOF fw) maxHdr) cl nc) bufs = (out, e, b') /\
     payload fs = out ++ tl /\
     ((e = None /\ zlen out <= cl /\ b_cancels b' = []) \/
      (e = Some ETooMuchData /\ zlen out = cl /\
@@ -91,37 +91,59 @@ Print Assumptions C18_message_error_code.
 
 (** Content-Length equal to the body: exact delivery, clean EOF, nothing reset. *)
 Theorem C18_content_length_exact :
+  forall (fs : list wframe) (sched : list Z) (fw : bool) (maxHdr : Z) (nc : bool) (bufs : list Z),
+  Forall wf_frame fs ->
+  exists out e b' tl,
+    body_reads (new_body (new_stream (mkSrc (wire fs) sched EEOF fw) maxHdr) (zlen (payload fs)) nc) bufs = (out, e, b') /\
+    payload fs = out ++ tl /\
+    (e = None \/ (e = Some EEOF /\ tl = [])) /\
+    b_cancels b' = [] /\
+    (all_pos bufs -> (length (wire fs) < length bufs)%nat -> e = Some EEOF).
+Proof. exact content_length_exact. Qed.
+Print Assumptions C18_content_length_exact.
+
+(** A body SHORTER than its declared Content-Length (message expected to carry content) is
+    reported as an error, never silently truncated: for every frame sequence, short-read
+    schedule and buffer sequence the reads deliver exactly the bytes that arrived, the only
+    error is io.ErrUnexpectedEOF (never io.EOF), it comes after the last received byte with both
+    directions reset once with H3_MESSAGE_ERROR, and it does come.
+    (This was the finding h3/content-length-under; true of the repaired body.Read.) *)
+Theorem C18_content_length_under :
+  forall (fs : list wframe) (sched : list Z) (fw : bool) (maxHdr cl : Z) (bufs : list Z),
+  Forall wf_frame fs -> zlen (payload fs) < cl ->
+  exists out e b' tl,
+    body_reads (new_body (new_stream (mkSrc (wire fs) sched EEOF fw) maxHdr) cl false) bufs = (out, e, b') /\
+    payload fs = out ++ tl /\
+    ((e = None /\ b_cancels b' = []) \/
+     (e = Some EUnexpectedEOF /\ tl = [] /\
+      b_cancels b' = [(0, h3ErrCodeMessageError); (1, h3ErrCodeMessageError)])) /\
+    e <> Some EEOF /\
+    (all_pos bufs -> (length (wire fs) < length bufs)%nat -> e = Some EUnexpectedEOF).
+Proof. exact content_length_under. Qed.
+Print Assumptions C18_content_length_under.
+
+(** Messages that never carry content (response to HEAD, 1xx / 204 / 304 responses) may declare
+    the Content-Length of the representation without delivering it: clean EOF, nothing reset. *)
+Theorem C18_content_length_no_content_exempt :
   forall (fs : list wframe) (sched : list Z) (fw : bool) (maxHdr cl : Z) (bufs : list Z),
   Forall wf_frame fs -> zlen (payload fs) <= cl ->
   exists out e b' tl,
-    body_reads (new_body (new_stream (mkSrc (wire fs) sched EEOF fw) maxHdr) cl) bufs = (out, e, b') /\
+    body_reads (new_body (new_stream (mkSrc (wire fs) sched EEOF fw) maxHdr) cl true) bufs = (out, e, b') /\
     payload fs = out ++ tl /\
     (e = None \/ (e = Some EEOF /\ tl = [])) /\
-    b_cancels b' = [] /\ b_rem b' = cl - zlen out /\
+    b_cancels b' = [] /\
     (all_pos bufs -> (length (wire fs) < length bufs)%nat -> e = Some EEOF).
-Proof. exact content_length_le. Qed.
-Print Assumptions C18_content_length_exact.
+Proof. exact content_length_no_content. Qed.
+Print Assumptions C18_content_length_no_content_exempt.
 
-(** FINDING (the property demands an error here): a body SHORTER than its declared
-    Content-Length ends with the plain io.EOF -- refutation witness on the faithful model
-    (Content-Length 5, DATA "abc", FIN), replayed on the real code by the harness
-    (MONFAIL h3/content-length-under) ... *)
-Theorem C18_content_length_under_refuted :
-  exists (fs : list wframe) (cl : Z) (bufs : list Z) (b' : body),
-    Forall wf_frame fs /\ zlen (payload fs) < cl /\
-    body_reads (new_body (new_stream (mkSrc (wire fs) [] EEOF false) 1000) cl) bufs = (payload fs, Some EEOF, b') /\
-    b_cancels b' = [] /\ 0 < b_rem b'.
-Proof. exact content_length_under_witness. Qed.
-Print Assumptions C18_content_length_under_refuted.
-
-(** ... and it is what the model does for EVERY too-short body. *)
-Theorem C18_content_length_under_always_eof :
-  forall (fs : list wframe) (sched : list Z) (fw : bool) (maxHdr cl : Z) (bufs : list Z),
-  Forall wf_frame fs -> zlen (payload fs) < cl -> all_pos bufs -> (length (wire fs) < length bufs)%nat ->
-  exists b', body_reads (new_body (new_stream (mkSrc (wire fs) sched EEOF fw) maxHdr) cl) bufs = (payload fs, Some EEOF, b') /\
-             b_cancels b' = [] /\ b_rem b' = cl - zlen (payload fs) /\ 0 < b_rem b'.
-Proof. exact content_length_under_always_eof. Qed.
-Print Assumptions C18_content_length_under_always_eof.
+(** Regression: the witness that refuted the property on the unrepaired code (Content-Length 5,
+    DATA "abc", FIN) now ends with io.ErrUnexpectedEOF after "abc", both directions reset. *)
+Example C18_content_length_under_witness_rejected :
+  let '(out, e, b') := body_reads (new_body (new_stream (mkSrc (wire under_witness_frames) [] EEOF false) 1000) 5 false) [16; 16] in
+  out = [97; 98; 99] /\ e = Some EUnexpectedEOF /\
+  b_cancels b' = [(0, h3ErrCodeMessageError); (1, h3ErrCodeMessageError)] /\ b_rem b' = 2.
+Proof. exact content_length_under_witness_rejected. Qed.
+Print Assumptions C18_content_length_under_witness_rejected.
 
 (** SETTINGS: a payload of (identifier, value) pairs is accepted iff no identifier repeats and
     the boolean settings (ENABLE_CONNECT_PROTOCOL, H3_DATAGRAM) carry 0 or 1; a frame longer
